@@ -372,6 +372,7 @@ func registerIntrinsics(e *Engine) {
 	})
 
 	registerStrings(e)
+	registerAtomic(e)
 	registerReflect(e)
 	registerNumParse(e)
 	registerSync(e)
